@@ -280,9 +280,11 @@ def dict_to_live_points(d, non_sampling_parameters=True):
     a = tuple(d.values())
     if hasattr(a[0], "__len__"):
         N = len(a[0])
+        scalar = False
     else:
         N = 1
-    if N == 1:
+        scalar = True
+    if scalar:
         if non_sampling_parameters:
             a = (*a, *config.livepoints.non_sampling_defaults)
         return np.array(
